@@ -462,6 +462,10 @@ Definition mon_C15 (mc:mcfg) (c:ccfg) (core:mstate) (s:rtt_mon) (op:mop) (o:obs)
    when Rc = 1: the only timer is then the final wait). mon_C06 judges the schedule relative to the timeout in effect;
    this clause pins the timeout in effect where the property names it. `s` is the C15 monitor state before the call. *)
 Definition mon_C06_initial (mc:mcfg) (c:ccfg) (s:rtt_mon) (op:mop) (o:obs) : bool :=
+  (* "first sent at t0" / "over a reliable transport it is transmitted once": an accepted request IS transmitted in that call *)
+  (match op, ob_ret o with
+   | MSend _ _ _ _ _, OOk => match first_out o with Some _ => true | None => false end
+   | _, _ => true end) &&
   if cc_reliable c then true else
   match op, ob_ret o with
   | MSend now id r _ _, OOk =>
@@ -507,6 +511,38 @@ Definition mon_C08_retry (c:ccfg) (core:mstate) (s:lt_mon) (op:mop) (o:obs) : bo
   | MRecv _ dec m =>
       if plain_challenge (cc_fp c) (lm_challenged s) (memN (m_id m) (live core)) dec m
       then existsb (fun e => match e with ERetry' i => i =? m_id m | _ => false end) (ob_events o)
+      else true
+  | _ => true
+  end.
+
+(* ---- C07, the IF direction of "a response whose integrity value is wrong or absent ends the transaction with a
+   protection-violated failure on reliable transport; on unreliable transport it is ignored, retransmissions continue, and
+   ... the final failure is reported as protection violated" (mon_C07 judges what MAY happen; this clause what MUST):
+   a decodable response for an outstanding request (with the valid FINGERPRINT a fingerprint-checking client insists on)
+   whose protected attributes do not carry both integrity kinds (that case is rejected outright) and whose integrity
+   attribute of the kind in force — the agreed one; MESSAGE-INTEGRITY, else MESSAGE-INTEGRITY-SHA256, while none is agreed
+   — is absent or keyed with anything but the configured password, must
+     - on reliable transport: fail that request with ProtectionViolated in this very call;
+     - on unreliable transport: produce no event and leave the request marked (so that mon_C07's timer clause turns its
+       eventual time-out into ProtectionViolated).
+   `core` / `s`: schedule and short-term monitor states BEFORE the call. *)
+Definition mon_C07_reject (c:ccfg) (core:mstate) (s:st_mon) (op:mop) (o:obs) : bool :=
+  if negb ((1 <=? cc_mech c) && (cc_mech c <=? 3)) then true else
+  match op with
+  | MRecv _ dec m =>
+      let P := rfc_filter (m_attrs m) in
+      let mi := find a_is_mi P in let sha := find a_is_sha P in
+      let both := (match mi with Some _ => true | None => false end) && (match sha with Some _ => true | None => false end) in
+      let pick := match sm_agreed s with
+                  | Some IMI => mi | Some ISHA => sha
+                  | None => match mi with Some _ => mi | None => sha end end in
+      if dec && memN (m_id m) (live core)
+         && (match m_class m with CSuccess | CError => true | _ => false end)
+         && (if cc_fp c then match find a_is_fp P with Some (AFP true) => true | _ => false end else true)
+         && negb both && negb (valid_st pick)
+      then if cc_reliable c
+           then existsb (fun e => match e with EFail i ProtectionViolated => i =? m_id m | _ => false end) (ob_events o)
+           else (match ob_events o with [] => true | _ => false end) && memN (m_id m) (ob_K o)
       else true
   | _ => true
   end.
